@@ -3,6 +3,7 @@ module verifharness
 go 1.14
 
 require (
+	github.com/antlr/antlr4/runtime/Go/antlr/v4 v4.0.0-20221202181307-76fa05c21b12
 	github.com/cockroachdb/apd/v2 v2.0.2
 	github.com/kstenerud/go-compact-float v1.6.1
 	github.com/kstenerud/go-compact-time v1.8.3
